@@ -8,6 +8,7 @@ import (
 	"os"
 	"path/filepath"
 	"sort"
+	"strconv"
 	"strings"
 	"time"
 
@@ -240,6 +241,7 @@ type harnessEvidence struct {
 	FloatErrVars  int               `json:"float_rounding_error_vars,omitempty"`
 	AbandonWhy    map[string]int    `json:"unsupported_reasons,omitempty"`
 	InconclWhy    map[string]int    `json:"inconclusive_clauses,omitempty"`
+	Merges        int               `json:"branches_joined_by_state_merging"`
 }
 
 func (r *runner) run() int {
@@ -271,8 +273,12 @@ func (r *runner) run() int {
 	sort.Slice(mine, func(i, j int) bool { return mine[i].Name < mine[j].Name })
 
 	opt := symx.Options{Tier: r.tier, Workers: r.workers, MaxPaths: 60000, MaxSteps: 3_000_000, MaxDepth: 400,
-		TimeoutMS: 20000, Deadline: 8 * time.Minute, SolverPath: envOr("VERIF_Z3", "z3"), Verbose: r.verbose, KnownKeys: knownKeys}
-	if r.tier == "thorough" {
+		TimeoutMS: 20000, Deadline: 8 * time.Minute, SolverPath: envOr("VERIF_Z3", "z3-new"), Verbose: r.verbose, KnownKeys: knownKeys,
+		NoMerge: os.Getenv("VERIF_NOMERGE") != ""}
+	if v, err := strconv.Atoi(os.Getenv("VERIF_MAXPATHS")); err == nil && v > 0 {
+		opt.MaxPaths = v
+	}
+	if r.tier == "thorough" && os.Getenv("VERIF_MAXPATHS") == "" {
 		opt.MaxPaths = 2_000_000
 		opt.TimeoutMS = 120000
 		opt.Deadline = 60 * time.Minute
@@ -316,6 +322,10 @@ func (r *runner) run() int {
 			for k, v := range rep.EndReasons {
 				fmt.Printf("    end: %-80s %d\n", k, v)
 			}
+			fmt.Printf("    merges: %d\n", rep.Merges)
+			for k, v := range rep.MergeFail {
+				fmt.Printf("    merge-fallback: %-70s %d\n", k, v)
+			}
 			for _, n := range rep.Notes {
 				fmt.Printf("    note: %s\n", n)
 			}
@@ -337,7 +347,7 @@ func (r *runner) run() int {
 			Discharged: st.Discharged, Violations: st.Violations, KnownHits: st.KnownHits, Inconclusive: st.Inconclusive,
 			Abandoned: st.Abandoned, Unwind: st.UnwindFailures, Reached: rep.Reached, Bounds: rep.Bounds, EndReasons: rep.EndReasons,
 			SolverTimeS: rep.SolverTime.Seconds(), Queries: rep.Queries, CacheHits: rep.CacheHits, WallS: rep.Wall.Seconds(),
-			Incomplete: rep.Incomplete, FloatErrVars: rep.FloatErrVars, AbandonWhy: st.AbandonReasons, InconclWhy: st.InconclusiveClauses})
+			Incomplete: rep.Incomplete, FloatErrVars: rep.FloatErrVars, AbandonWhy: st.AbandonReasons, InconclWhy: st.InconclusiveClauses, Merges: rep.Merges})
 		states += st.Paths
 		transitions += st.Decisions + st.Obligations
 		solverTime += rep.SolverTime
@@ -495,7 +505,7 @@ func (r *runner) run() int {
 			"harnesses":                     hev,
 			"stubs_used":                    sl,
 			"known_findings_confirmed":      kc,
-			"solver":                        "z3 4.8.12 (z3 -in, one process per worker)",
+			"solver":                        envOr("VERIF_Z3", "z3-new") + " -in, one process per worker (z3-new = z3 5.1.0; z3 = 4.8.12)",
 			"solver_time_s":                 solverTime.Seconds(),
 			"load_and_ssa_build_s":          loadT.Seconds(),
 			"exhaustive":                    len(incomplete) == 0 && engineErrors == 0,
@@ -516,6 +526,10 @@ func (r *runner) run() int {
 	}
 	if len(violLines) > 0 {
 		return 1
+	}
+	if r.noReplay && len(pend) > 0 {
+		fmt.Printf("NO-REPLAY: %d solver models (violations/known/witnesses) were not replayed; no verdict\n", len(pend))
+		return 2
 	}
 	if engineErrors > 0 || spurious > 0 || divergent > 0 || len(incomplete) > 0 {
 		fmt.Printf("CHECK-ERROR property=%s: engine_errors=%d spurious=%d divergent_witnesses=%d incomplete=%v (no verdict; not a violation)\n",
